@@ -441,9 +441,11 @@ class Facts:
         out.extend(i.get("edges", []))
         return out
 
-    def reach(self, roots):
-        """Instances reachable from root instance ids; returns dict id -> parent id (witness tree)."""
+    def reach(self, roots, cut=()):
+        """Instances reachable from root instance ids; returns dict id -> parent id (witness tree).
+        Instances in `cut` are reached but not expanded."""
         parent = {}
+        cut = set(cut)
         dq = deque()
         for r in roots:
             if r not in parent:
@@ -451,6 +453,8 @@ class Facts:
                 dq.append(r)
         while dq:
             x = dq.popleft()
+            if x in cut:
+                continue
             for y in self.out_edges(x):
                 if y not in parent:
                     parent[y] = x
